@@ -7,19 +7,21 @@ import (
 )
 
 // sb builds one case and keeps the abstract bookkeeping needed to name each frame's Work class
-// (how many frames the relay will emit for it) and the frame counts to wait for.
+// (which locks processFrame takes for it, how many frames the relay will emit) and the frame counts
+// to wait for.
 type sb struct {
 	r          *core.Rand
 	ops        []string
 	expC, expS int // frames the raw client / server must have received once the relay is quiescent
 	stalled    bool
-	failS      bool           // writes toward the client fail
-	zero       map[string]bool // direction whose DATA is held behind a zero stream window
+	failS      bool            // writes toward the client fail
+	zero       map[string]bool // direction whose DATA is held behind a closed stream window
 	queued     map[string]int  // DATA frames (of qlen bytes) queued in that direction's relay
 	qlen       int
 	open       map[uint32]bool
 	nextSid    uint32
 	state      string
+	held       bool // a goroutine of the relay is blocked inside a write toward the stalled client holding destMu
 }
 
 func newSB(r *core.Rand) *sb {
@@ -57,24 +59,34 @@ func (b *sb) headers(dir string, sid uint32) {
 	b.toward(dir, 1)
 }
 
-// data frame with room in the windows (total volume per case stays far below 65535)
+// data frame with room in the windows (total volume per case stays far below 65535 unless the case
+// exhausts the window on purpose). A DATA frame with payload is acknowledged first (two
+// WINDOW_UPDATEs to its sender, written under the PEER relay's destMu): Work class `data`.
 func (b *sb) data(dir string, sid uint32, n int) {
+	k := 1
 	if b.zero[dir] {
-		b.add("env deliver %s own 0 : data %d %d", dir, sid, n)
+		k = 0
 		b.queued[dir]++
 	} else {
-		b.add("env deliver %s own 1 : data %d %d", dir, sid, n)
 		b.toward(dir, 1)
 	}
 	if n > 0 {
-		b.back(dir, 2) // the relay acknowledges with two WINDOW_UPDATEs to the sender
+		b.add("env deliver %s data %d : data %d %d", dir, k, sid, n)
+		b.back(dir, 2)
+	} else {
+		b.add("env deliver %s own %d : data %d %d", dir, k, sid, n)
 	}
 }
 
-func (b *sb) ping(dir string) {
-	b.add("env deliver %s direct 1 : ping", dir)
+// directKinds: frames processFrame forwards itself under its relay's destMu.
+var directKinds = []string{"ping", "pong", "settings", "settings-ack", "goaway"}
+
+func (b *sb) direct(dir, kind string) {
+	b.add("env deliver %s direct : %s", dir, kind)
 	b.toward(dir, 1)
 }
+
+func (b *sb) ping(dir string) { b.direct(dir, b.r.Pick(directKinds[:4]...)) }
 
 func (b *sb) newStream() uint32 {
 	sid := b.nextSid
@@ -120,20 +132,44 @@ func (b *sb) midStream() {
 	b.settle()
 }
 
-// zeroWindow: DATA of direction d is queued in the relay behind a zero stream window announced by d's receiver.
-func (b *sb) zeroWindow(d string) {
-	b.add("env deliver %s peer 0 : settings-iw 0", other(d))
-	b.toward(other(d), 1)
-	b.zero[d] = true
-	b.settle()
-	sid := b.newStream()
-	b.qlen = b.r.Range(1, 50)
+// zeroWindow: DATA of direction d is queued in the relay behind a closed stream window of d's
+// receiver: announced as zero (SETTINGS_INITIAL_WINDOW_SIZE 0) or used up (4 x 16384 bytes against the
+// default 65535 without a WINDOW_UPDATE). long: 61..300 frames queued (a relay that bounds, batches or
+// blocks on its per-stream queue behaves differently only past some length).
+func (b *sb) zeroWindow(d string, long bool) {
+	exhausted := b.r.Chance(1, 3)
+	var sid uint32
+	if exhausted {
+		sid = b.newStream()
+		b.settle()
+		b.add("rep 3 env deliver %s data 1 : data %d 16384", d, sid)
+		b.toward(d, 3)
+		b.back(d, 6)
+		b.zero[d] = true
+		b.qlen = b.r.Range(1, 50)
+		b.add("env deliver %s data 0 : data %d 16384", d, sid) // 16383 left: does not fit
+		b.queued[d]++
+		b.back(d, 2)
+		b.settle()
+		core.Count("window:exhausted")
+	} else {
+		b.add("env deliver %s settings 0 : settings-iw 0", other(d))
+		b.toward(other(d), 1)
+		b.zero[d] = true
+		b.settle()
+		sid = b.newStream()
+		b.qlen = b.r.Range(1, 50)
+		core.Count("window:zero")
+	}
 	k := b.r.Range(1, 30)
-	b.add("rep %d env deliver %s own 0 : data %d %d", k, d, sid, b.qlen)
+	if long {
+		k = b.r.Range(61, 300)
+	}
+	b.add("rep %d env deliver %s data 0 : data %d %d", k, d, sid, b.qlen)
 	b.queued[d] += k
 	b.back(d, 2*k)
 	b.settle()
-	if b.r.Chance(1, 3) { // part of it is released and fully drained BEFORE the terminating event
+	if !exhausted && !long && b.r.Chance(1, 3) { // part of it is released and fully drained BEFORE the terminating event
 		j := b.r.Range(1, b.queued[d])
 		b.add("env deliver %s peer %d : wupdate %d %d", other(d), j, sid, j*b.qlen)
 		b.toward(d, j)
@@ -142,8 +178,8 @@ func (b *sb) zeroWindow(d string) {
 	}
 }
 
-// outputFull: the client stops reading; the s2c writer blocks in its write, the s2c output channel
-// fills up and the s2c reader blocks on `output <- f` holding flowMu.
+// outputFull: the client stops reading; the s2c writer blocks in its write (holding the s2c destMu),
+// the s2c output channel fills up and the s2c reader blocks on `output <- f` holding flowMu.
 func (b *sb) outputFull() {
 	b.add("env stall s2c")
 	b.stalled = true
@@ -156,7 +192,48 @@ func (b *sb) outputFull() {
 		}
 	}
 	b.expC += n
+	b.held = true
 	b.pause()
+}
+
+// contended: the client stops reading while a goroutine of the relay writes toward it, so that
+// goroutine sits inside the write holding the s2c destMu: the s2c reader itself (a directly forwarded
+// control frame), the c2s reader (window acknowledgement of a client DATA frame) or the s2c writer (a
+// queued frame). Then the other users of that mutex arrive and wait for it.
+func (b *sb) contended() {
+	sid := b.newStream()
+	b.settle()
+	b.add("env stall s2c")
+	b.stalled = true
+	holder := b.r.Pick("reader", "peer", "writer")
+	switch holder {
+	case "reader":
+		b.direct("s2c", b.r.Pick(directKinds...))
+	case "peer":
+		b.data("c2s", sid, b.r.Range(1, 100))
+	case "writer":
+		b.headers("s2c", sid+100)
+	}
+	b.pause()
+	// the others queue up behind the mutex (in any order, any subset)
+	for i := b.r.Range(1, 3); i > 0; i-- {
+		switch b.r.Intn(3) {
+		case 0:
+			if holder != "reader" {
+				b.direct("s2c", b.r.Pick(directKinds...))
+				holder = "reader+" // the s2c reader is now stuck too: no further s2c frame is read
+			}
+		case 1:
+			b.data("c2s", sid, b.r.Range(1, 100))
+		case 2:
+			if holder != "reader" && holder != "reader+" {
+				b.headers("s2c", sid+102+uint32(2*i))
+			}
+		}
+	}
+	b.held = true
+	b.pause()
+	core.Count("contended:" + holder)
 }
 
 func (b *sb) unstall() {
@@ -184,13 +261,13 @@ func (b *sb) event(ev string) {
 		b.add("env deliver s2c eof : close")
 	case "wfail-client-direct":
 		b.add("env failwrites s2c")
-		b.add("env deliver s2c direct 0 : ping")
+		b.add("env deliver s2c direct : %s", b.r.Pick(directKinds...))
 	case "wfail-client-writer":
 		b.add("env failwrites s2c")
 		b.add("env deliver s2c own 1 : headers %d", sid)
 	case "wfail-client-ack": // the c2s reader's window acknowledgement toward the client fails
 		b.add("env failwrites s2c")
-		b.add("env deliver c2s direct 0 : data %d %d", sid, b.r.Range(1, 100))
+		b.add("env deliver c2s data 1 : data %d %d", sid, b.r.Range(1, 100))
 	case "server-reset":
 		b.add("env deliver s2c err : reset")
 		b.add("env failwrites c2s")
@@ -228,7 +305,7 @@ func (b *sb) trailing(ev string) {
 		if b.r.Bool() {
 			b.add("env deliver %s own 1 : headers %d", d, 101+2*i)
 		} else {
-			b.add("env deliver %s direct 1 : ping", d)
+			b.add("env deliver %s direct : ping", d)
 		}
 	}
 	core.Count("trailing")
@@ -245,20 +322,29 @@ func buildCase(r *core.Rand, state, ev string) []string {
 		if r.Bool() {
 			b.midStream()
 		}
-		b.zeroWindow("c2s")
+		b.zeroWindow("c2s", false)
 	case "zero-s2c":
 		if r.Bool() {
 			b.midStream()
 		}
-		b.zeroWindow("s2c")
+		b.zeroWindow("s2c", false)
+	case "long-c2s":
+		b.zeroWindow("c2s", true)
+	case "long-s2c":
+		b.zeroWindow("s2c", true)
 	case "full":
 		if r.Bool() {
 			b.midStream()
 		}
 		b.outputFull()
 	case "zero+full":
-		b.zeroWindow(r.Pick("c2s", "s2c"))
+		b.zeroWindow(r.Pick("c2s", "s2c"), r.Chance(1, 4))
 		b.outputFull()
+	case "contended":
+		if r.Chance(1, 3) {
+			b.midStream()
+		}
+		b.contended()
 	}
 	if r.Chance(1, 2) {
 		b.add("probe")
@@ -271,34 +357,132 @@ func buildCase(r *core.Rand, state, ev string) []string {
 	return b.ops
 }
 
+// early: the session ends (or the proxy shuts down) before, during or right after the steps that
+// precede the relays: dial, TLS handshake, preface read, preface write, the first SETTINGS.
+func early(r *core.Rand, kind string) []string {
+	core.Count("early:" + kind)
+	k := r.Range(1, 23)
+	switch kind {
+	case "dial-refused":
+		return []string{"begin refuse", "finish"}
+	case "tls-fails":
+		return []string{"begin tlsfail " + r.Pick("close", "garbage", "badcert"), "finish"}
+	case "dial-refused-then-client":
+		return []string{"begin " + r.Pick("refuse", "tlsfail close"), "env preface " + r.Pick("good", "eof", "wrong"), "finish"}
+	case "preface-eof":
+		return []string{"begin ok", "probe", "env preface eof", "finish"}
+	case "preface-short":
+		return []string{"begin ok", fmt.Sprintf("env preface short %d", k), "finish"}
+	case "preface-wrong":
+		return []string{"begin ok", "env preface wrong", "finish"}
+	case "preface-closing-then-client": // shutdown is seen as soon as the relays exist
+		return []string{"begin ok", "env closing", fmt.Sprintf("env preface %s", r.Pick("good", fmt.Sprintf("split %d", k), "eof", "wrong")), "finish"}
+	case "preface-server-gone": // the server resets / closes before the preface can be written to it
+		if r.Bool() {
+			return []string{"begin ok", "env deliver s2c err : reset", "env preface good", "finish"}
+		}
+		return []string{"begin ok", "env deliver s2c eof : close", "env preface good", "finish"}
+	case "preface-split":
+		return []string{"begin ok", fmt.Sprintf("env preface split %d", k), "probe", "env deliver c2s eof : close", "finish"}
+	}
+	// right after the preface, without (or in the middle of) the SETTINGS exchange
+	ops := []string{"begin ok", "env preface good"}
+	switch r.Intn(4) {
+	case 0:
+	case 1:
+		ops = append(ops, "env deliver c2s direct : settings", "settle 0 1")
+	case 2:
+		ops = append(ops, "env deliver c2s direct : settings", "env deliver s2c direct : settings", "settle 1 1")
+	case 3:
+		ops = append(ops, "settings")
+	}
+	b := newSB(r)
+	b.ops = ops
+	b.event(kind[len("first-settings-"):])
+	return append(b.ops, "finish")
+}
+
+var earlyKinds = []string{"dial-refused", "tls-fails", "dial-refused-then-client", "preface-eof", "preface-short", "preface-wrong",
+	"preface-closing-then-client", "preface-server-gone", "preface-split"}
+
 // f10cRace: the directed scheduling that wedges the session (finding F10c). k DATA frames are queued
 // behind a zero stream window toward the server; the server releases them with ONE WINDOW_UPDATE;
 // as soon as it sees the first released frame the client goes away: the c2s reader/writer pair leaves
 // while the s2c reader is still pushing into the c2s output.
 func f10cRace(k int) []string {
 	return []string{"start",
-		"env deliver s2c peer 0 : settings-iw 0", "settle 1 0",
+		"env deliver s2c settings 0 : settings-iw 0", "settle 1 0",
 		"env deliver c2s own 1 : headers 1",
-		fmt.Sprintf("rep %d env deliver c2s own 0 : data 1 1", k),
+		fmt.Sprintf("rep %d env deliver c2s data 0 : data 1 1", k),
 		fmt.Sprintf("settle %d 1", 2*k+1),
 		fmt.Sprintf("env deliver s2c peer %d : wupdate 1 1000000", k),
-		"hint rTake s2c", "hint acquire s2c", "hint push s2c", "hint wSend c2s 1",
+		"hint rTake s2c", "hint acquire s2c", "hint push s2c", "hint wTake c2s", "hint wLock c2s", "hint wDone c2s",
 		"env deliver c2s eof : close race 1",
 		"hint rTake c2s", "hint handshake c2s",
 		"finish"}
 }
 
-var states = []string{"idle", "mid", "zero-c2s", "zero-s2c", "full", "zero+full"}
+// destMuSweep: every kind of directly forwarded frame (and the window acknowledgement, and a queued
+// frame in the writer) as the holder of the s2c destMu inside a blocked write, every other user as the
+// one waiting for it, then the blocked write fails (or the client goes away, or the stall just ends
+// after another terminating event). Small and systematic: each error path of each direct write is hit
+// with somebody waiting behind it.
+func destMuSweep(emit func([]string)) {
+	holders := []string{"env deliver s2c direct : ping", "env deliver s2c direct : pong", "env deliver s2c direct : settings",
+		"env deliver s2c direct : settings-ack", "env deliver s2c direct : goaway", "env deliver s2c settings 0 : settings-iw 70000",
+		"env deliver c2s data 1 : data 1 10", "env deliver s2c own 1 : headers 2"}
+	waiters := []string{"env deliver c2s data 1 : data 1 20", "env deliver s2c direct : ping", "env deliver s2c own 1 : headers 4"}
+	ends := [][]string{
+		{"env failwrites s2c"},
+		{"env deliver c2s eof : close", "env failwrites s2c", "env unstall s2c"},
+		{"env closing", "settle - -", "env unstall s2c"},
+	}
+	for _, h := range holders {
+		for _, w := range waiters {
+			if h[:18] == w[:18] {
+				continue // the same goroutine cannot wait behind itself
+			}
+			if h[:15] == "env deliver s2c" && h[16:19] != "own" && w[:15] == "env deliver s2c" {
+				continue // the s2c reader is the holder: it reads no further s2c frame
+			}
+			for _, e := range ends {
+				ops := []string{"start", "env deliver c2s own 1 : headers 1", "settle 0 1", "env stall s2c", h, "settle - -", w, "settle - -"}
+				ops = append(ops, e...)
+				emit(append(ops, "finish"))
+				core.Count("destmu_sweep")
+			}
+		}
+	}
+}
+
+var states = []string{"idle", "mid", "zero-c2s", "zero-s2c", "long-c2s", "long-s2c", "full", "zero+full", "contended"}
 
 func (P) Gen(r *core.Rand, tier string, emit func([]string)) {
-	rounds := 2
+	rounds := 1
 	if tier == "thorough" {
-		rounds = 24
+		rounds = 32
 	}
 	for i := 0; i < rounds; i++ {
 		for _, st := range states {
 			for _, ev := range events {
 				emit(buildCase(r.Fork(), st, ev))
+			}
+		}
+		for _, k := range earlyKinds {
+			emit(early(r.Fork(), k))
+		}
+		for _, ev := range events {
+			emit(early(r.Fork(), "first-settings-"+ev))
+		}
+	}
+	destMuSweep(emit)
+	if tier != "thorough" {
+		// a second, random half round
+		for _, st := range states {
+			for _, ev := range events {
+				if r.Chance(1, 2) {
+					emit(buildCase(r.Fork(), st, ev))
+				}
 			}
 		}
 	}
